@@ -6,7 +6,7 @@ Property theorems only (helper lemmas: `Proofs/BrokerFanout*.lean`).  Model:
 `Model/Topics.lean` and its finished theorems (`Properties/C06.lean`);
 specification: `Spec/Match.lean` (section 4.7).
 -/
-import Mqtt.Proofs.BrokerFanoutHeld
+import Mqtt.Proofs.BrokerFanoutGen
 
 set_option linter.unusedSimpArgs false
 
@@ -76,21 +76,12 @@ example :
 
 /-! ### (e) a publish reaches exactly the matching subscriptions -/
 
-/-- what subscriber `s`, holding a matching subscription granted at QoS `g`,
-is handed for the accepted PUBLISH `p`: same topic, same payload, QoS
-`min(p.qos, g)`; a connection gets RETAIN = 0 and the publisher's identifier
-(none at QoS 0), an in-process callback the message as received -/
-def delivery (p : Pub) (s g : Nat) : Out :=
-  if s < cbBase then
-    .send s (.publish { dup := p.dup, qos := min p.qos g, retain := false, topic := p.topic,
-                        pktid := if min p.qos g = 0 then 0 else p.pktid, payload := p.payload })
-  else .call s { p with qos := min p.qos g }
-
-/-- the subscriber an output is addressed to -/
-def target : Out → Option Nat
-  | .send c _ => some c
-  | .call cb _ => some cb
-  | _ => none
+/- `delivery p s g` (Proofs/BrokerFanoutGen.lean) is what subscriber `s`, holding a
+matching subscription granted at QoS `g`, is handed for the accepted PUBLISH
+`p`: same topic, same payload, QoS `min(p.qos, g)`; a connection (`s < cbBase`)
+gets `.send s (.publish ..)` with RETAIN = 0 and the publisher's identifier
+(none at QoS 0), an in-process callback `.call s ..` with the message as
+received.  `target o` is the subscriber an output is addressed to. -/
 
 /-- For every state satisfying the invariant whose subscribed connections are
 alive, and every decoded PUBLISH `p` (QoS <= 2, identifier present unless QoS 0)
@@ -110,6 +101,22 @@ theorem C01_publish_reaches_matching_partial (b : B) (p : Pub) (hinv : Inv b)
         (fun e => delivery p e.2.1 e.2.2)) := by
   obtain ⟨h1, _, h3⟩ := onPublish_char b p hinv hg hn hq hid hal
   exact ⟨h1, h3⟩
+
+/-- The same without assuming that the subscribed connections are alive (after
+overlapping client identifiers, finding E4, the trie can keep entries of dead
+connections): a dead connection gets nothing; everybody else gets exactly the
+deliveries above - except that, once the loop has passed a dead connection, the
+in-process callbacks after it see RETAIN = 0 instead of the received flag
+(`dropCallRetain` forgets the flag callbacks see; what connections are sent is
+compared exactly). -/
+theorem C01_publish_reaches_reachable_partial (b : B) (p : Pub) (hinv : Inv b)
+    (hg : good p.topic = true) (hn : validName p.topic = true) (hq : p.qos ≤ 2)
+    (hid : p.pktid ≠ 0 ∨ p.qos = 0) :
+    (onPublish b ⟨p, false⟩).2.2.2 = true ∧
+    ((onPublish b ⟨p, false⟩).2.2.1.map dropCallRetain).Perm
+      (((abs b.topics.sroot).filter (fun e => matchLevels e.1 (split p.topic) && reachable b e.2.1)).map
+        (fun e => dropCallRetain (delivery p e.2.1 e.2.2))) :=
+  onPublish_char_gen b p hinv hg hn hq hid
 
 /-- In terms of the subscriptions held (`HeldInv`: the trie holds exactly the
 entries of the specification's `held` list, as `C07_held_refines_partial`
@@ -145,9 +152,7 @@ theorem C01_nobody_else_partial (b : B) (p : Pub) (held : List Mqtt.Spec.Broker.
   have := (C01_publish_held_partial b p held hinv hh hg hn hq hid hal).mem_iff.mp ho
   obtain ⟨h, hm, rfl⟩ := List.mem_map.mp this
   obtain ⟨hm1, hm2⟩ := List.mem_filter.mp hm
-  refine ⟨h, hm1, hm2, ?_⟩
-  unfold delivery
-  split <;> rfl
+  exact ⟨h, hm1, hm2, target_delivery p h.owner h.qos⟩
 
 /-- the full statement: all valid topic names -/
 def C01_publish_held_full : Prop :=
